@@ -990,6 +990,9 @@ int main(int argc, char **argv)
     mkdir(base_dir, 0700);
     wcap = malloc(CAPMAX); rcap = malloc(CAPMAX);
     while (vh_next_case()) {
+        /* in some lifecycle histories descriptor 0 is free (a daemon that closed stdin): socket objects may then own descriptor 0 */
+        if (fcntl(0, F_GETFD) < 0) { int fd = open("/dev/null", O_RDONLY); if (fd > 0) { dup2(fd, 0); __real_close(fd); } }
+        if (vh_case_idx >= 3400 && vh_case_idx % 2 == 1 && (vh_case_idx / 2) % 4 == 0) { __real_close(0); vh_count("histories_with_descriptor_0_free", 1); }
         if (VH_CASE_TRY()) {
             reset_case();
             if (vh_case_idx < 3400) transfer_case(1);
